@@ -173,6 +173,9 @@ class EventManager:
                 this_str = str(event.contents)
                 base[event.start_index].append(this_str)
                 for i in range(event.start_index + 1, event.end_index):
+                    # Rows that share the onset of the start row belong to its time point: not ongoing there yet.
+                    if abs(self.onsets[i] - event.start_time) <= 1e-9:
+                        continue
                     contexts[i].append(this_str)
         self.base = self.compress_strings(base)
         self.contexts = self.compress_strings(contexts)
